@@ -5,7 +5,7 @@ from harness.checks.tcpcl import BASE_ASSUMPTIONS
 from harness.drivers import tcpcl_timers
 
 
-def timers_model(name, ka, idle, maxclock, sends, silent='{}', dev='{}', expect='ok', note=''):
+def timers_model(name, ka, idle, maxclock, sends, silent='{}', dev='{}', expect='ok', note='', userterms='{}'):
     mod = '''---- MODULE %s ----
 EXTENDS TcpclTimers
 McKa == %s
@@ -18,6 +18,7 @@ CONSTANTS
   MaxClock = %d
   MaxSends = %d
   Silent = %s
+  UserTerms = %s
   Dev = %s
   Enforced = {"C14"}
   Known = {}
@@ -25,7 +26,7 @@ CONSTANTS
 INVARIANT OK
 INVARIANT EndOK
 CHECK_DEADLOCK FALSE
-''' % (maxclock, sends, silent, dev)
+''' % (maxclock, sends, silent, userterms, dev)
     return ModelRun(name, cfg, name, expect=expect, module_text=mod, timeout=2400, note=note)
 
 
@@ -55,6 +56,14 @@ class C14(Check):
                                           % (a, p, ia, ip)))
         runs.append(timers_model('MC_tim_silent', fn(0, 0), fn(2, 0), 8, 1, silent='{"P"}',
                                  note='peer never answers: idle timeout, then the terminating endpoint still closes'))
+        runs.append(timers_model('MC_tim_term_silent', fn(1, 1), fn(3, 0), 9, 1, silent='{"P"}', userterms='{"A"}',
+                                 note='keepalive 1 s < idle 3 s, the user terminates at any moment, the peer never '
+                                      'answers: the endpoint keeps sending KEEPALIVEs and still closes'))
+        runs.append(timers_model('MC_tim_term_pair', fn(1, 2), fn(2, 3), 8, 1, userterms='{"A", "P"}',
+                                 note='both users may terminate at any moment, keepalive below the idle times'))
+        runs.append(timers_model('MC_tim_dev_keepalive_postpones_closing', fn(1, 1), fn(3, 0), 9, 1, silent='{"P"}',
+                                 userterms='{"A"}', dev='{"keepalive_postpones_closing"}', expect='violation',
+                                 note='own KEEPALIVEs re-arming the idle timer of a terminating endpoint must be caught'))
         for (dev, args) in [('keepalive_max', (fn(1, 2), fn(3, 0), '{}')),
                             ('idle_while_terminating_raises', (fn(0, 0), fn(2, 0), '{"P"}')),
                             ('no_idle_reset_on_rx', (fn(2, 2), fn(2, 3), '{}'))]:
